@@ -66,7 +66,8 @@ Explained(e) ==
     [] e.op = "sub_scalar_assign" -> GoodT(e, TShift(e.pre, -e.s))
     [] e.op = "matvec" -> IF Acc_TMatVec(e.pre, e.v) THEN ~e.panic /\ SameSeq(e.rv, TMatVec(e.pre, e.v)) ELSE e.panic
     \* complex operands as real and imaginary parts
-    [] e.op = "matvec_cx" -> /\ ~e.panic
+    [] e.op = "matvec_cx" -> IF Len(e.v) # e.pre.n THEN e.panic ELSE      \* (a vector of another size is refused)
+                             /\ ~e.panic
                              /\ LET A == TDense(e.pre)
                                     Bi == TDense(e.prei)
                                     av == MatVec(A, e.v)
@@ -80,7 +81,8 @@ Explained(e) ==
                             /\ SameTri(e.rti, TLin(e.pre, e.si, e.prei, e.s))
     \* ---- exact determinant and solve-or-refuse ----
     [] e.op = "det" -> ~e.panic /\ e.rq[2] = 1 /\ e.rq[1] = TDet(e.pre)
-    [] e.op = "solve" -> IF SomePivotZero(e.pre)
+    [] e.op = "solve" -> IF Len(e.r) # e.pre.n THEN e.panic          \* a right-hand side of another size is refused
+                         ELSE IF SomePivotZero(e.pre)
                            THEN e.panic /\ e.zero                      \* refuses, and says why
                            ELSE ~e.panic /\ e.imzero /\ Checkable(e.xs, e.L) /\ ResidualZero(TDense(e.pre), e.xs, e.L, e.r)
     \* ---- Gaussian-integer data on which the complex float arithmetic is exact: judged like Rat, over Gaussian rationals ----
@@ -133,7 +135,10 @@ Mutators == {"set", "transpose_in_place", "mul_assign", "rebind_mul", "div_assig
              "rebind_neg", "rebind_add", "rebind_sub", "with_elements", "new", "with_vecs", "with_vectors"}
 NextPart(e, v, ok) ==
     IF e.op = "built" THEN (IF e.panic THEN v ELSE Given(e))
+    ELSE IF ~IsSeq(e) THEN v                                                \* (stand-alone events: another object)
     ELSE IF ~ok THEN (IF Has(e, "post") THEN e.post ELSE v)                 \* re-synchronise on the logged state
+    \* a refused call (out-of-range assignment, operand of another size) leaves the object as it was
+    ELSE IF e.op \in Mutators /\ e.panic THEN v
     ELSE IF e.op \in Mutators THEN After(e)
     ELSE IF e.op = "resize" THEN e.post
     ELSE v
